@@ -1,3 +1,4 @@
+#![cfg_attr(feature = "f-pattern", feature(pattern))]
 //! Conformance runner: drives the real regress crate with the cases the TLA+ specification
 //! enumerates and records what it did, for TLC to judge.
 mod ast;
@@ -9,6 +10,9 @@ mod grammar;
 mod render;
 mod replace;
 mod sem;
+mod threads;
+#[cfg(feature = "f-pattern")]
+mod searcher;
 #[cfg(feature = "f-utf16")]
 mod utf16;
 
@@ -29,6 +33,9 @@ fn main() {
         "render" => render::main(rest),
         "cpset" => cpset::main(rest),
         "fold" => fold::main(rest),
+        "threads" => threads::main(rest),
+        #[cfg(feature = "f-pattern")]
+        "searcher" => searcher::main(rest),
         #[cfg(feature = "f-utf16")]
         "sem16" => utf16::sem16(rest),
         #[cfg(feature = "f-utf16")]
